@@ -127,6 +127,100 @@ def newline_increment(rule):
     return None, None
 
 
+def _linear(fi, e, depth=0):
+    """expression -> ({atom source: coefficient}, constant); names with a single definition are expanded first"""
+    if isinstance(e, ast.Name) and depth < 6:
+        d = K.single_defs(fi).get(e.id)
+        if d is not None and not isinstance(d, (ast.Call, ast.IfExp)):
+            return _linear(fi, d, depth + 1)
+    if isinstance(e, ast.Constant) and isinstance(e.value, int) and not isinstance(e.value, bool):
+        return {}, e.value
+    if isinstance(e, ast.BinOp) and isinstance(e.op, (ast.Add, ast.Sub)):
+        a, ca = _linear(fi, e.left, depth)
+        b, cb = _linear(fi, e.right, depth)
+        sg = 1 if isinstance(e.op, ast.Add) else -1
+        out = dict(a)
+        for k, v in b.items():
+            out[k] = out.get(k, 0) + sg * v
+        return {k: v for k, v in out.items() if v}, ca + sg * cb
+    if isinstance(e, ast.UnaryOp) and isinstance(e.op, ast.USub):
+        a, ca = _linear(fi, e.operand, depth)
+        return {k: -v for k, v in a.items()}, -ca
+    return {K.src(e).replace(" ", ""): 1}, 0
+
+
+def _lin_sub(a, b):
+    out = dict(a[0])
+    for k, v in b[0].items():
+        out[k] = out.get(k, 0) - v
+    return {k: v for k, v in out.items() if v}, a[1] - b[1]
+
+
+def marked_in_loop(cli, s_all):
+    """The excerpt printed by one loop over a slice of the lines, the marker chosen per line by a test: (ok|None, why, line) or
+    None when there is no such loop."""
+    consts = [n for n in s_all if isinstance(n, ast.Constant) and isinstance(n.value, str) and "-->" in n.value]
+    if not consts:
+        return None
+    for lp in [n for n in s_all if isinstance(n, ast.For)]:
+        if not any(c is x for c in consts for st in lp.body for x in ast.walk(st)):
+            continue
+        it = lp.iter
+        off = elem = None
+        enum_start = ({}, 0)
+        base = None
+        if isinstance(it, ast.Call) and isinstance(it.func, ast.Name) and it.func.id == "enumerate" and it.args and isinstance(lp.target, ast.Tuple) and len(lp.target.elts) == 2 and all(isinstance(x, ast.Name) for x in lp.target.elts):
+            off, elem = lp.target.elts[0].id, lp.target.elts[1].id
+            st_ = it.args[1] if len(it.args) > 1 else next((k.value for k in it.keywords if k.arg == "start"), None)
+            if st_ is not None:
+                enum_start = _linear(cli, st_)
+            seq = it.args[0]
+            if isinstance(seq, ast.Name):
+                seq = K.single_defs(cli).get(seq.id, seq)
+            if isinstance(seq, ast.Subscript) and isinstance(seq.slice, ast.Slice) and seq.slice.step is None:
+                base = _linear(cli, seq.slice.lower) if seq.slice.lower is not None else ({}, 0)
+            elif isinstance(seq, ast.Name):
+                base = ({}, 0)
+        elif isinstance(it, ast.Call) and isinstance(it.func, ast.Name) and it.func.id == "range" and isinstance(lp.target, ast.Name):
+            off = lp.target.id
+            base = ({}, 0)
+        if off is None or base is None:
+            return None, "the loop printing the marked excerpt (`for %s in %s`) is outside the recognised forms" % (K.src(lp.target), K.src(it)[:50]), lp.lineno
+        # the test that selects the marker
+        tests = []
+        for n in [x for st in lp.body for x in ast.walk(st)]:
+            if isinstance(n, (ast.IfExp, ast.If)) and any(c is x for c in consts for x in ast.walk(n)):
+                tests.append(n)
+        if not tests:
+            return False, "every line of the excerpt is printed with the --> marker", lp.lineno
+        t = tests[0]
+        in_body = any(c is x for c in consts for b_ in ([t.body] if isinstance(t, ast.IfExp) else t.body) for x in ast.walk(b_))
+        cond = t.test
+        if not (isinstance(cond, ast.Compare) and len(cond.ops) == 1 and isinstance(cond.ops[0], (ast.Eq, ast.NotEq))):
+            return None, "the marker is chosen by `%s`, outside the recognised tests" % K.src(cond), t.lineno
+        if isinstance(cond.ops[0], ast.NotEq):
+            in_body = not in_body
+        if not in_body:
+            return False, "the --> marker is put on the lines for which `%s` is false" % K.src(cond), t.lineno
+        diff = _lin_sub(_linear(cli, cond.left), _linear(cli, cond.comparators[0]))
+        # absolute index of the printed element minus the offending index (ex.lineno - 1) must be what the test compares to zero
+        absidx = dict(base[0])
+        absidx[off] = absidx.get(off, 0) + 1
+        absidx = ({k: v for k, v in absidx.items() if v}, base[1])
+        absidx = _lin_sub(absidx, enum_start)
+        want = None
+        for k in list(diff[0]) + ["ex.lineno"]:
+            if k.endswith(".lineno"):
+                want = _lin_sub(absidx, ({k: 1}, -1))
+        if want is None:
+            return False, "the marker is placed by `%s`, which does not involve the error's line at all: it marks the offending line only when the excerpt happens to start %s lines above it (an error in the first lines of the file is marked wrongly or not at all)" % (K.src(cond), K.src(cond.comparators[0])), t.lineno
+        neg = ({k: -v for k, v in want[0].items()}, -want[1])
+        if diff == want or diff == neg:
+            return True, "the loop marks the printed line whose index in the file equals ex.lineno - 1 (`%s`)" % K.src(cond), t.lineno
+        return False, "the marker is placed by `%s`, which is not `index of the printed line == ex.lineno - 1`" % K.src(cond), t.lineno
+    return None
+
+
 def run(ctx, idx):
     ctx.assume("PLY 3.11 facts (DESIGN A.2): a token's lineno is the lexer counter before its function runs; Lexer.input() does not reset the counter; p.lineno(i) of a nonterminal needs tracking=True; yacc.parse(lexer=None) uses the module-global last lexer")
     ctx.rule("C11.a", "In Parser.parse every path to the PLY parse call stores 1 into the lexer's line counter (or builds a fresh lexer); the call passes lexer= explicitly and tracking=True.")
@@ -351,7 +445,13 @@ def run(ctx, idx):
     s_all = [n for n in own_nodes(cli.node)]
     marks = [n for n in s_all if isinstance(n, ast.Call) and isinstance(n.func, ast.Attribute) and n.func.attr == "format" and isinstance(n.func.value, ast.Constant) and "-->" in str(n.func.value.value)]
     con = "%s::marked-line" % cli.key
-    if not marks:
+    loop_form = marked_in_loop(cli, s_all) if not marks else None
+    if loop_form is not None:
+        okm, whym, linem = loop_form
+        if okm is None:
+            raise AnalysisError("C11.f: %s" % whym)
+        ctx.ob("C11.f", con, K.rel(cli), linem, okm, whym)
+    elif not marks:
         ctx.violate("C11.f", con, K.rel(cli), cli.node.lineno, "the CLI no longer marks the offending line with -->")
     else:
         m = marks[0]
